@@ -16610,6 +16610,9 @@ func (msg *BGPUpdate) DecodeFromBytes(data []byte, options ...*MarshallingOption
 		attributes: attributes,
 	}
 	options = append(options, &o)
+	// RFC 7606 4: whatever the attributes say about their own length, the
+	// Total Attribute Length locates the NLRI field.
+	nlriField := data[msg.TotalPathAttributeLen:]
 
 	msg.PathAttributes = []PathAttributeInterface{}
 	for pathlen := msg.TotalPathAttributeLen; pathlen > 0; {
@@ -16651,7 +16654,9 @@ func (msg *BGPUpdate) DecodeFromBytes(data []byte, options ...*MarshallingOption
 			if e.(*MessageError).Stronger(strongestError) {
 				strongestError = e
 			}
-			return strongestError
+			// treat-as-withdraw needs the prefixes: go on with the NLRI field
+			data = nlriField
+			break
 		}
 		pathlen -= pLen
 		if len(data) < p.Len(options...) {
